@@ -266,6 +266,15 @@ def flag_growth(rows):
 NEST_FAMILIES = [
     ("template args", lambda d: "A<" * d + "A" + ">" * d + " x;"),
     ("template args unterminated", lambda d: "A<" * d + "A"),
+    ("template args fnptr suffix", lambda d: "A<" * d + "int" + ">(*)()" * d + " x;"),
+    ("template args value suffix", lambda d: "A<" * d + "1" + ">::value + 1" * d + " x;"),
+    ("template args ptr suffix", lambda d: "A<" * d + "int" + ">*" * d + " x;"),
+    ("template args call suffix", lambda d: "A<" * d + "int" + ">()" * d + " x;"),
+    ("template args array suffix", lambda d: "A<" * d + "int" + ">[2]" * d + " x;"),
+    ("template args two per level", lambda d: "A<int, " * d + "int" + ">" * d + " x;"),
+    ("template args in base clause", lambda d: "struct S : " + "A<" * d + "int" + ">" * d + " {};"),
+    ("decltype nest", lambda d: "decltype(" * d + "x" + ")" * d + " v;"),
+    ("requires nest", lambda d: "template <typename T> requires " + "(" * d + "true" + ")" * d + " void f();"),
     ("template args in parameter", lambda d: "void f(" + "A<" * d + "int" + ">" * d + " p);"),
     ("parens initializer", lambda d: "int x = " + "(" * d + "1" + ")" * d + ";"),
     ("parens unterminated", lambda d: "int x = " + "(" * d + "1"),
